@@ -88,14 +88,19 @@ def run(ctx, chk):
         chk.missing('C19.R1', 'main of the clockbound binary / thread manager')
         return
     b = mains[0]
-    # which parameter of the manager is the drift rate: its only u32 parameter
-    u32s = [i for i in range(1, tmb0.argc + 1) if tmb0.tystr(tmb0.locals[i]['ty']) == 'u32']
-    drift_ix = (u32s[0] - 1) if len(u32s) == 1 else 0
+    # where the drift rate enters the manager: its only u32 parameter, or the only u32 field of a configuration struct it takes
+    slot = common.manager_slot(fb, tmb0, lambda ts: ts == 'u32')
+    if slot is None:
+        chk.missing('C19.R1', 'the u32 drift-rate parameter (or configuration field) of the thread manager')
+        return
+    drift_ix, drift_proj = slot
+    cfg_types = set(common.slot_types(fb, tmb0, slot))
     chk.saw(b)
     if prof == 'release':
         chk.ob('C19.R1', 'config:release-overflow-checks-off', b.crate.overflow_checks is False, b.where(0),
                'analysed configuration has overflow-checks=%s (release: off)' % b.crate.overflow_checks, nontrivial=False)
-    eng = common.mk_engine(fb, no_inline=lambda x: x.crate.kind != 'bin')
+    # (library functions that build the configuration struct -- its Default, a constructor -- are part of the plumbing)
+    eng = common.mk_engine(fb, no_inline=lambda x: x.crate.kind != 'bin' and x.tystr(x.locals[0]['ty']) not in cfg_types)
     paths = [p for p in eng.run(b) if p.kind != 'unreachable']
     chk.analysed['paths'] += len(paths)
     n_run = 0
@@ -109,7 +114,7 @@ def run(ctx, chk):
                 opt = 'Some' if ((op == '==' and val == 1) or (op == '!=' and 0 in val)) else 'None'
         for ef in runs:
             n_run += 1
-            v = ef['args'][drift_ix]
+            v = eng.project(ef['args'][drift_ix], drift_proj)
             ok, desc, rule = analyse_value(v, p.conds, asserts)
             if ok and opt == 'Some' and psi.is_int_const(v):
                 # the option was given: whatever constant is handed over instead of rate x 1000 is a silent substitution
@@ -231,11 +236,15 @@ def flow_chain(fb, chk):
         chk.missing('C19.R4', 'thread manager')
         return False
     chk.saw(tmb)
-    u32s = [i for i in range(1, tmb.argc + 1) if tmb.tystr(tmb.locals[i]['ty']) == 'u32']
-    dix = u32s[0] if len(u32s) == 1 else 1
-    taint = ('sym', tmb.debug_names.get(dix, 'arg%d' % dix))
+    slot = common.manager_slot(fb, tmb, lambda ts: ts == 'u32')
+    if slot is None:
+        chk.missing('C19.R4', 'the u32 drift-rate parameter (or configuration field) of the thread manager')
+        return False
+    dix = slot[0] + 1
+    psym = ('sym', tmb.debug_names.get(dix, 'arg%d' % dix))
+    taint = psi.Engine(fb).project(psym, slot[1])
     args = [None] * tmb.argc
-    args[dix - 1] = taint
+    args[dix - 1] = psym
     r = follow(fb, tmb, args, taint, [], frozenset())
     chk.ob('C19.R4', 'flow:manager->updater-constructor', r is not None, tmb.where(0),
            'the drift value passed to thread_manager::run reaches a constructor unchanged via %s' % (' -> '.join(x.split('::')[-1] for x in r[2]) if r else 'NO PATH FOUND'))
